@@ -61,6 +61,9 @@ func runC02(o *opts) (*summary, error) {
 		if tz := os.Getenv("TZ"); tz != "" && tz != "UTC" {
 			rec["tz"] = tz
 		}
+		if x := o.extraArg("poison"); x != "" {
+			rec["poison"] = x
+		}
 		w.put(rec, class, fmt.Sprintf("%s%v", argKey(cs), rec["delivered"]))
 	}
 	serialOf := func() uint32 {
@@ -77,6 +80,54 @@ func runC02(o *opts) (*summary, error) {
 			return 0x19
 		}
 		return 0x17
+	}
+
+	// poison pass (one fresh process per k): the FIRST reply this process ever decodes for each reply type is refused
+	// (its k-th field outside its domain, or a stray with another function code), the following ones are well formed -
+	// whatever the codec remembers about a type from its first decode must not depend on how that decode ended
+	if x := o.extraArg("poison"); x != "" {
+		k := 0
+		fmt.Sscanf(x, "%d", &k)
+		for _, op := range replyOps() {
+			next()
+			fs := []field{}
+			for _, f := range lt.Rsp[op].Fields {
+				if f.Name != "SerialNumber" {
+					fs = append(fs, f)
+				}
+			}
+			run(op, serialOf(), "poison-first", func(l layout, req []byte) []byte {
+				if len(fs) == 0 || k%(len(fs)+1) == len(fs) {
+					m := l.message(rng, som(op), req[4:8], "valid", nil)
+					m[1] ^= 0x03 // a stray: another function code
+					return m
+				}
+				bad := fs[k%(len(fs)+1)]
+				return l.message(rng, som(op), req[4:8], "valid", func(x field) string {
+					if x.Name == bad.Name {
+						return "out"
+					}
+					return ""
+				})
+			})
+			for i := 0; i < 10; i++ {
+				run(op, serialOf(), "poison-then-valid", func(l layout, req []byte) []byte {
+					m := l.message(rng, som(op), req[4:8], "valid", nil)
+					switch op {
+					case "GetCardByID":
+						copy(m[8:12], req[8:12])
+					case "GetTimeProfile":
+						m[8] = req[8]
+					case "GetEvent", "GetCardByIndex":
+						if i%2 == 0 {
+							copy(m[8:12], req[8:12])
+						}
+					}
+					return m
+				})
+			}
+		}
+		return w.close(), nil
 	}
 
 	// zone pass (the process zone has offset changes): well-formed replies whose calendar fields sit on the zone's
